@@ -3,6 +3,8 @@
 #include <stddef.h>
 #include <string.h>
 #ifndef VERIF_REPLAY
+#include <stdint.h>
+uint64_t vh_nd;
 void explicit_bzero(void *s, size_t n)
 {
     /* contract: bytes s[0..n) become zero and the call may not be elided */
